@@ -47,6 +47,25 @@ fn values() -> Vec<(&'static str, Vec<X>, X)> {
             ],
             id("bazv"),
         ),
+        // @base chains with a layer that has no @type of its own
+        (
+            "untyped-over-bar",
+            vec![
+                assign("foov", foo()),
+                assign("barv", mm(vec![(MK::Meta("base".into(), None), id("foov")), (MK::Meta("type".into(), None), s("Bar"))])),
+                assign("untv", mm(vec![(MK::Meta("base".into(), None), id("barv")), (MK::Id("own".into()), int(3))])),
+            ],
+            id("untv"),
+        ),
+        (
+            "baz-over-untyped-over-foo",
+            vec![
+                assign("foov", foo()),
+                assign("midv", mm(vec![(MK::Meta("base".into(), None), id("foov")), (MK::Id("own".into()), int(3))])),
+                assign("bazv", mm(vec![(MK::Meta("base".into(), None), id("midv")), (MK::Meta("type".into(), None), s("Baz"))])),
+            ],
+            id("bazv"),
+        ),
         (
             "generator-fn",
             vec![assign("gfv", x(E::Func(Rc::new(FuncDef {
@@ -75,8 +94,8 @@ fn hint_names() -> Vec<&'static str> {
 fn excluded(hint: &str, value: &str) -> bool {
     match (hint, value) {
         // whether maps carrying a metamap count as iterable/indexable is not documented
-        ("Iterable", "foo" | "bar-base-foo" | "baz-base-bar" | "callable-obj" | "plain-object") => true,
-        ("Indexable", "foo" | "bar-base-foo" | "baz-base-bar" | "callable-obj" | "plain-object") => true,
+        ("Iterable", "foo" | "bar-base-foo" | "baz-base-bar" | "callable-obj" | "plain-object" | "untyped-over-bar" | "baz-over-untyped-over-foo") => true,
+        ("Indexable", "foo" | "bar-base-foo" | "baz-base-bar" | "callable-obj" | "plain-object" | "untyped-over-bar" | "baz-over-untyped-over-foo") => true,
         // unbounded ranges: the guide calls *bounded* ranges iterable; silent on the others
         ("Iterable", "range-from" | "range-to") => true,
         // a range without a start cannot be indexed: by the guide not Indexable
@@ -320,6 +339,34 @@ pub fn generate(tier: Tier, emit: Emit) {
                         print(id("mr")),
                         assign("mv2", x(E::Map(vec![(MK::Id("k".into()), Some(ve.clone()))]))),
                         assign("mr2", x(E::Match(vec![id("mv2")], arms))),
+                        print(id("mr2")),
+                    ]),
+                    shape: shape.clone(),
+                });
+                // a map pattern with a hint for the whole value: selects by type under both settings
+                let arms = vec![
+                    Arm {
+                        alts: vec![vec![Pat::TypedMap(Box::new(Pat::Map(vec![(MK::Id("data".into()), None, None)])), hint.clone())]],
+                        guard: None,
+                        body: blk(vec![tuple(vec![s("typed map arm"), id("data")])]),
+                        is_else: false,
+                    },
+                    Arm {
+                        alts: vec![vec![Pat::Map(vec![(MK::Id("data".into()), None, None)])]],
+                        guard: None,
+                        body: blk(vec![tuple(vec![s("keys-only arm"), id("data")])]),
+                        is_else: false,
+                    },
+                    Arm { alts: vec![], guard: None, body: blk(vec![s("else arm")]), is_else: true },
+                ];
+                emit(Case {
+                    family: "match-map-typed",
+                    prog: mk(vec![
+                        assign("mv", ve.clone()),
+                        assign("mr", x(E::Match(vec![id("mv")], arms.clone()))),
+                        print(id("mr")),
+                        // and a plain map with the same key
+                        assign("mr2", x(E::Match(vec![map(vec![("data", int(9))])], arms))),
                         print(id("mr2")),
                     ]),
                     shape: shape.clone(),
